@@ -14,8 +14,8 @@ META = {
                   "srctools.filesys:RawFileSystem._get_cache_key", "srctools.filesys:FileSystemChain._get_file",
                   "srctools.filesys:FileSystemChain.walk_folder_repeat", "srctools.packlist:unify_path"],
     "bounds": "path = symbolic str over the alphabet {. / \\ r x s i d} with an exact length per slice (quick 0..5, thorough 0..7, "
-              "sliced by the class of the first two characters); model tree /r/i /r/d/i (inside), /rx/s (sibling whose name extends "
-              "the root's), /s (ancestor), /x/s; roots '/r', '/r/' and relative 'r' (cwd '/'); 10 entry points incl. a chain with "
+              "sliced by the class of the first two characters); model tree /r/i /r/d/i and a file named '\\..\\s' in /r (inside), /rx/s (sibling whose name extends "
+              "the root's), /s (ancestor), /x/s; roots '/r', '/r/' and relative 'r' (cwd '/'); 11 entry points incl. a chain with "
               "subfolder prefix 'd'",
     "outside": "symbolic links, Windows path semantics, paths longer than the bound or using other characters (the code only "
                "compares against '/', '\\\\', '.', and the root string, so other characters behave like the letters used)",
@@ -27,10 +27,13 @@ META = {
     "validation_runs": 2814,
 }
 
-FILES = [("/r/i", b"in"), ("/r/d/i", b"nested"), ("/rx/s", b"SECRET-sibling"), ("/s", b"SECRET-parent"), ("/x/s", b"SECRET-other")]
+# "/r/\\..\\s" is ONE file inside the root whose name contains backslashes (an ordinary character on POSIX); with the slashes
+# unified it would spell "/../s"
+FILES = [("/r/i", b"in"), ("/r/d/i", b"nested"), ("/rx/s", b"SECRET-sibling"), ("/s", b"SECRET-parent"), ("/x/s", b"SECRET-other"),
+         ("/r/\\..\\s", b"in-odd-name")]
 ROOT = "/r"
 ALPHA = "./\\rxsid"
-OPS = ["resolve", "open_bin", "open_str", "contains", "getitem", "walk", "cache_key", "chain_getitem", "chain_contains", "chain_walk"]
+OPS = ["resolve", "open_bin", "open_str", "contains", "getitem", "getitem_open", "walk", "cache_key", "chain_getitem", "chain_contains", "chain_walk"]
 ROOT_FORMS = ["/r", "/r/", "r"]
 
 
@@ -110,6 +113,10 @@ def _run(path, op, rootform):
         elif op == "getitem":
             f = fs[path]
             with f.open_bin() as h:
+                got = h.read()
+        elif op == "getitem_open":
+            f = fs[path]
+            with fs.open_str(f) as h:
                 got = h.read()
         elif op == "walk":
             got = []
